@@ -297,7 +297,7 @@ def part_random(ctx):
         raise kit.Inconclusive("random driver returned %d of %d histories" % (len(results), n))
     variants, verdicts, nev = validate_chunks(ctx, "random", [(r["id"], r["out"]["trace"]) for r in results],
                                               8 if ctx.thorough else 4, variant_order(results))
-    if len(verdicts) != n:
+    if len(verdicts) != n and "none" not in variants:   # (with model drift some chunks have no verdicts: judged by the harness alone)
         raise kit.Inconclusive("TLC returned %d verdicts for %d histories" % (len(verdicts), n))
     compare_with_tlc(ctx, "random", results, verdicts)
     return results, variants, nev
